@@ -357,24 +357,58 @@ def edit_o(rng, v, classes=DIFF_CLASSES, kinds="LTDSFA"):
     return copy.deepcopy(v), "none"
 
 
-def gen_pair(rng, classes=DIFF_CLASSES, kinds="LTDSFA", depth=3):
-    """(t1, t2, edit kinds): t1 with at least one object, t2 = 0-3 edits of t1 (or independent)"""
+def share_obj(rng, t):
+    """ONE instance of t placed at a second position (the same Python object twice; no cycle): appended to a list,
+    under a new dict key, or as a new attribute of a plain instance that is not inside the shared one.  None if impossible."""
+    pos = list(positions_o(t))
+    objs = [p for p in pos if p and is_obj(get_at_o(t, p))]
+    rng.shuffle(objs)
+    for p in objs:
+        hosts = [q for q in pos if q[:len(p)] != p and
+                 (isinstance(get_at_o(t, q), (list, dict)) or type(get_at_o(t, q)) in (PA, PB, PN))]
+        rng.shuffle(hosts)
+        for q in hosts:
+            host, o = get_at_o(t, q), get_at_o(t, p)
+            if isinstance(host, list):
+                host.append(o)
+            elif isinstance(host, dict):
+                if "shared" in host:
+                    continue
+                host["shared"] = o
+            else:
+                free = [n for n in ATTR_NAMES if n not in host.__dict__]
+                if not free:
+                    continue
+                setattr(host, free[0], o)
+            return t
+    return None
+
+
+def gen_pair(rng, classes=DIFF_CLASSES, kinds="LTDSFA", depth=3, share=0.12):
+    """(t1, t2, edit kinds): t1 with at least one object, t2 = 0-3 edits of t1 (or independent); in a fraction `share`
+    of the cases one instance of t1 occurs at two positions (the model gets the unfolded tree)"""
     for _ in range(50):
         t1 = gen_o(rng, depth, classes, kinds)
         if has_obj(t1):
             break
     else:
         t1 = gen_obj(rng, 2, classes, kinds)
+    shared = False
+    if share and rng.random() < share:
+        t1s = share_obj(rng, copy.deepcopy(t1))
+        if t1s is not None:
+            t1, shared = t1s, True
+    tag = ["shared_instance"] if shared else []
     r = rng.random()
     if r < 0.06:
-        return t1, copy.deepcopy(t1), ["copy"]
+        return t1, copy.deepcopy(t1), ["copy"] + tag
     if r < 0.12:
-        return t1, gen_o(rng, depth, classes, kinds), ["independent"]
+        return t1, gen_o(rng, depth, classes, kinds), ["independent"] + tag
     t2, ks = t1, []
     for _ in range(rng.choice([1, 1, 1, 2, 2, 3])):
         t2, k = edit_o(rng, t2, classes, kinds)
         ks.append(k)
-    return t1, copy.deepcopy(t2), ks
+    return t1, copy.deepcopy(t2), ks + tag
 
 
 def in_guard(t1, t2):
@@ -1024,7 +1058,7 @@ def c01_pair(ctx, t1, t2, cases, corr=True):
 def stream_c01(ctx, n=None):
     cases = []
     for _ in range(n or n_pairs(ctx, 200, 1200)):
-        t1, t2, ks = gen_pair(ctx.rng, classes=C01_CLASSES, kinds=C01_KINDS)
+        t1, t2, ks = gen_pair(ctx.rng, classes=C01_CLASSES, kinds=C01_KINDS, share=0)
         _count_pair(ctx, "obj_c01", t1, t2, ks)
         c01_pair(ctx, t1, t2, cases)
     for c in cases[:2]:
@@ -1225,7 +1259,7 @@ def c08_pair(ctx, t1, t2, cases, corr=True):
 def stream_c08(ctx, n=None):
     cases = []
     for _ in range(n or n_pairs(ctx, 160, 1000)):
-        t1, t2, ks = gen_pair(ctx.rng, classes=C08_CLASSES, kinds=C01_KINDS)
+        t1, t2, ks = gen_pair(ctx.rng, classes=C08_CLASSES, kinds=C01_KINDS, share=0)
         if ctx.rng.random() < 0.6:
             # one more changed attribute value: a location for the corrupted-base clause
             cand = [(p, k) for p in positions_o(t2) if is_obj(get_at_o(t2, p))
@@ -1342,8 +1376,43 @@ def stream_c10(ctx, n=None):
 # C09
 # ---------------------------------------------------------------------------
 
-def attr_names_ok(v):
+import re as _re
+_ESC = "\U0001d1c0"
+
+
+def key_ok_py(k):
+    """mirror of Path.PathModel.key_ok on a dict key"""
+    if isinstance(k, str):
+        return not ("'" in k and '"' in k) and not k.endswith(_ESC)
+    if isinstance(k, bytes):
+        return all(32 <= ch <= 126 and ch != 92 for ch in k) and not (b"'" in k and b'"' in k)
+    if isinstance(k, float):
+        return abs(2 * k) < 2 ** 53
     return True
+
+
+def attr_ok_py(s):
+    """mirror of Obj.ObjPathText.attr_ok"""
+    return bool(_re.fullmatch(r"[A-Za-z_][A-Za-z0-9_]*", s)) and not s.startswith("__") and s not in ("None", "True", "False")
+
+
+def okeys_ok_py(v):
+    """mirror of Obj.ObjTextPaths.okeys_ok: the guard of C04_objects_text_paths_extract_partial"""
+    if is_obj(v):
+        return all(attr_ok_py(k) and okeys_ok_py(x) for k, x in attrs_of(v))
+    if isinstance(v, (list, tuple)):
+        return all(okeys_ok_py(x) for x in v)
+    if isinstance(v, dict):
+        return all(key_ok_py(k) and okeys_ok_py(x) for k, x in v.items())
+    return True
+
+
+def opath_ok_py(cp):
+    """mirror of Obj.ObjPathText.opath_ok on a canonical path"""
+    return all(attr_ok_py(x) if tag == "a" else (True if tag == "x" else key_ok_py(D.uncanon_atom(x))) for tag, x in cp)
+
+
+HDR9 = HDR[:-1] + " Obj.ObjPathText Obj.ObjTextPaths."
 
 
 def model_path_expr(cp):
@@ -1366,6 +1435,12 @@ def c09_pair(ctx, t1, t2, cases, corr=True):
     if isinstance(r, Exception):
         return
     n = 0
+    # the guard of the text-path theorem (C04_objects_text_paths_extract_partial) observed on the inputs, as Coq booleans
+    gk = [okeys_ok_py(t1), okeys_ok_py(t2)]
+    ctx.count("obj_c09:hyp:okeys_ok_" + ("true" if all(gk) else "false"))
+    if corr:
+        cases.append(("SL [sx_bool (okeys_ok %s); sx_bool (okeys_ok %s)]" % (to_coq_o(t1), to_coq_o(t2)), gk,
+                      dict(t1=repr(t1), t2=repr(t2), block="Obj", what="okeys_ok (guard of the text-path theorem)")))
     for kind in KINDS_O:
         for lv in r.get(kind, []) or []:
             if kind.startswith("set_item"):
@@ -1397,10 +1472,15 @@ def c09_pair(ctx, t1, t2, cases, corr=True):
                 if [(e["element"], e["action"]) for e in els] != [(e["element"], e["action"]) for e in want]:
                     case["clause"] = "parse_path differs from the chain"
                     ctx.fail(case, "parse_path(%r) = %r, chain = %r" % (ps, els, want))
+                pok = opath_ok_py(cp)
+                if all(gk) and not pok:
+                    # the theorem's conclusion, on a real reported path
+                    ctx.break_("correspondence", {"name": "obj_c09 theorem instance", "case": case,
+                                                  "detail": "okeys_ok holds of both inputs and a reported path fails opath_ok"})
                 if corr:
-                    cases.append(("sx_opath_text %s %s" % (to_coq_o(t2 if use_t2 else t1), model_path_expr(cp)),
-                                  [ps, ["Some", canon_o(leaf)]],
-                                  dict(t1=repr(t1), t2=repr(t2), block="Obj", path=ps, what="orender / oresolve")))
+                    cases.append(("SL [sx_opath_text %s %s; sx_bool (opath_ok %s)]" % (to_coq_o(t2 if use_t2 else t1), model_path_expr(cp), model_path_expr(cp)),
+                                  [[ps, ["Some", canon_o(leaf)]], pok],
+                                  dict(t1=repr(t1), t2=repr(t2), block="Obj", path=ps, what="orender / oresolve / opath_ok")))
     ctx.seen(("c09", repr(t1), repr(t2), thr), nontrivial=n > 0)
     ctx.count("obj_c09:paths", n)
 
@@ -1411,7 +1491,7 @@ def stream_c09(ctx, n=None):
         t1, t2, ks = gen_pair(ctx.rng)
         _count_pair(ctx, "obj_c09", t1, t2, ks)
         c09_pair(ctx, t1, t2, cases)
-    ctx.coq_cases("obj_c09", HDR, cases, shard=300, label="obj_path_text(C09)")
+    ctx.coq_cases("obj_c09", HDR9, cases, shard=300, label="obj_path_text(C09)")
 
 
 def replay_case(ctx, case):
